@@ -127,6 +127,14 @@ func runC13(c *Ctx) {
 		r.Fail("V0", "v2:limit.Rate.Recalculate", "-", "UNRESOLVED-ANCHOR: Recalculate not found")
 		return
 	}
+	r.Doc("V8", "error tests are not inverted: no error value returned where it was tested nil, none dropped where tested non-nil", 3)
+	var v8 []*ssa.Function
+	for _, g := range p.errorFuncs("limit") {
+		if strings.Contains(p.Pos(g.Pos()), "rate.go:") {
+			v8 = append(v8, g)
+		}
+	}
+	checkErrorTests(c, p, "V8", v8)
 	for g := range p.Reach(fn) {
 		r.Funcs[p.FnKey(g)] = true
 	}
